@@ -46,6 +46,9 @@ type runResult struct {
 	ReplayAt  string            `json:"replay,omitempty"`
 	TapeLen   [rt.NStreams]int  `json:"tape_len"`
 	Phase     string            `json:"phase"`
+	Nontrivial map[string]bool  `json:"nontrivial"`
+	Digests   int               `json:"digests"`
+	Sample    interface{}       `json:"sample,omitempty"`
 }
 
 type replayFile struct {
@@ -93,6 +96,15 @@ func runOne(seed uint64, prof profile, tape *rt.Tape, jb *job) (res runResult, r
 	res = runResult{Seed: seed, Profile: prof.Name, Steps: run.sim.Steps, SimNS: run.sim.Now, Hash: fmt.Sprintf("%016x", run.sim.Hash),
 		Config: run.cfg, Faults: run.st.Faults, Reach: run.st.Reach, Violation: run.viol, Infra: run.infra, Phase: run.phase}
 	res.Counters = run.counters()
+	res.Nontrivial = run.nontrivial()
+	res.Digests = len(run.digests)
+	first := tape.Out[rt.StSched]
+	if len(first) > 32 {
+		first = first[:32]
+	}
+	res.Sample = map[string]interface{}{"seed": seed, "profile": prof.Name, "voters": run.cfg.Voters, "nonvoters": run.cfg.Nonvoters, "hb_ms": run.cfg.HB.Milliseconds(),
+		"segment": run.cfg.SegSize, "steps": run.sim.Steps, "sim_s": float64(run.sim.Now) / 1e9, "faults": run.st.Faults, "counters": res.Counters,
+		"first_schedule_choices": first, "nontrivial_for": res.Nontrivial}
 	for i := 0; i < rt.NStreams; i++ {
 		res.TapeLen[i] = tape.Pos(i)
 	}
